@@ -8,7 +8,7 @@ from av.props import simprop
 MANIFEST_ENTRY = {
     "category": "fault_enumeration",
     "technique": "fault injection at every evaluation (a harness-side failpoint on Model.process raises at the k-th simulation, for every k up to the number of evaluations of a reference run, once with an ordinary exception and once with KeyboardInterrupt) with structural snapshots of the caller's objects before/after; plus an independent re-evaluation of the objective, bounds and hard targets of normally completed runs; deterministic probe of every measurable class against an independent evaluation",
-    "text": "Small budget-optimisation problems (1-4 spending adjustables with absolute or relative bounds, measurables over single years and ranges, with and without population selection, optional hard targets and total-spend constraint, iteration budgets 0/1/5/20, random optimiser seeds) and calibration problems (1-3 y-factors) on generated and library models are solved with the default ASD method. Completed runs: the objective of the returned instructions / parameter set, re-evaluated from a fresh run_sim as the documented sum of the requested outputs over years and populations (flows annualised, spending from get_alloc), is no worse than the starting point's and matches the value the optimiser recorded; adjusted values lie in their bounds; hard targets met at the start are met at the end. In every run - completed, out of budget, or killed at the k-th evaluation for every k = 1..N - the caller's parameter set, program set, instructions, data and project settings (start, end, dt, time vector length) are structurally unchanged. A deterministic measurable probe (no optimisation) evaluates Maximize / Minimize / AtMost / AtLeast / IncreaseBy / DecreaseBy measurables for {all, first, last, all-listed} populations and {year, range} with thresholds either side of the independently computed value; generated hard targets are population-selected and tight half of the time. A third of the budget problems adjust two years on an allocation that differs between them, and the optimizer's starting allocation and kept total are compared with the caller's instructions; a third of the calibrations start from an already calibrated parameter set (population and all-population factors != 1) and the first objective evaluation, hooked in the real code, must be at the caller's factors. A third of the optimisations use an Optimization object that has already been used from another allocation. Total-spend constraints carry budget factors; a quarter of the problems have an objective that spending cannot move, so that the optimizer accepts no step and must return its constrained starting point. The measurable probe covers absolute IncreaseBy / DecreaseBy targets. Degenerate calibration requests (no measurables) must work on copies too.",
+    "text": "Small budget-optimisation problems (1-4 spending adjustables with absolute or relative bounds, measurables over single years and ranges, with and without population selection, optional hard targets and total-spend constraint, iteration budgets 0/1/5/20, random optimiser seeds) and calibration problems (1-3 y-factors) on generated and library models are solved with the default ASD method. Completed runs: the objective of the returned instructions / parameter set, re-evaluated from a fresh run_sim as the documented sum of the requested outputs over years and populations (flows annualised, spending from get_alloc), is no worse than the starting point's and matches the value the optimiser recorded; adjusted values lie in their bounds; hard targets met at the start are met at the end. In every run - completed, out of budget, or killed at the k-th evaluation for every k = 1..N - the caller's parameter set, program set, instructions, data and project settings (start, end, dt, time vector length) are structurally unchanged. A deterministic measurable probe (no optimisation) evaluates Maximize / Minimize / AtMost / AtLeast / IncreaseBy / DecreaseBy measurables for {all, first, last, all-listed} populations and {year, range} with thresholds either side of the independently computed value; generated hard targets are population-selected and tight half of the time. A third of the budget problems adjust two years on an allocation that differs between them, and the optimizer's starting allocation and kept total are compared with the caller's instructions; a third of the calibrations start from an already calibrated parameter set (population and all-population factors != 1) and the first objective evaluation, hooked in the real code, must be at the caller's factors. A third of the optimisations use an Optimization object that has already been used from another allocation. Total-spend constraints carry budget factors; a quarter of the problems have an objective that spending cannot move, so that the optimizer accepts no step and must return its constrained starting point. The measurable probe covers absolute IncreaseBy / DecreaseBy targets. Degenerate calibration requests (no measurables) must work on copies too. The probe includes generic weighted measurables (weights 0, 2.5, -1).",
     "note": "sciris' asd is called with die=True, so injected faults propagate; a procedure that absorbs a fault and finishes is judged like a normal completion. N is measured by a fault-free reference run with the same optimiser seed.",
 }
 
